@@ -5,14 +5,52 @@ import os
 
 HERE = os.path.dirname(os.path.dirname(os.path.abspath(__file__)))
 
-TECH = 'runtime monitoring'
+RM = 'runtime monitoring: '
+NOTE = ('Held = held on the executions observed (see evidence: evaluations, distinct cases, input-class counters, contract '
+        'evaluations, lines reached in the anchored functions). Trusted: numpy, xarray container semantics, GEOS predicates via '
+        'shapely, netCDF4/HDF5, the harness generators and oracles. ')
 
 CHECKS = {
     'C01': dict(
-        technique='runtime monitoring: reference-model monitor at the API boundary (exhaustive per-dataset index sweep) + sys.monitoring reach monitor',
-        text='Every linear index of every grid kind of several hundred (quick) / ~12000 (thorough) generated datasets of all conventions is wound and ravelled by the real code while a monitor compares with row-major integer arithmetic on the abstract model; out-of-range indexes must raise. Held = held on the executions observed.',
-        note='Trusted: numpy integer arithmetic, xarray Dataset.sizes, the harness generators. Grids up to ~6x6 / ~40 mesh faces.',
-        ref='DESIGN.md §5 C01'),
+        technique=RM + 'reference-model monitor at the API boundary (exhaustive per-dataset index sweep, expected-error events) + sys.monitoring reach monitor',
+        text='Every linear index of every grid kind of several hundred (quick) / ~12000 (thorough) generated datasets of all conventions is wound and ravelled by the real code while a monitor compares with row-major integer arithmetic on the abstract model; out-of-range linear and native indexes must raise.',
+        note=NOTE + 'Grids up to ~6x6 / ~40 mesh faces.', ref='DESIGN.md §5 C01'),
+    'C02': dict(
+        technique=RM + 'cross-accessor reference-model monitor with self-identifying values (polygons, centres, ravel, select_index, STRtree) + in-situ icontract post-conditions + reach monitor',
+        text='For every cell of generated datasets (holes, skewed geometry, permuted dimension orders) the polygon, centre, flattened values, selected values and spatial-index hits observed from the real API are compared with the abstract model; every stored value is a unique id, so any permutation or shift is visible from one observation.',
+        note=NOTE + 'Derived geometry (CF grids without bounds) compared within 1e-9; zero-area synthesised cells are not asserted.', ref='DESIGN.md §5 C02'),
+    'C03': dict(
+        technique=RM + 'reference-model monitor on ravel/wind + in-situ icontract post-conditions on utils.ravel_dimensions / wind_dimension (fire inside every workload) + reach monitor',
+        text='ravel / wind are driven over all conventions x kinds x variables with 0-3 extra dims in random permutations, default/custom/colliding linear names, winding by axis / name / default with the linear axis at every position; results compared bit-for-bit with the model canonical arrays and with a moveaxis+reshape reference inside the contract.',
+        note=NOTE + 'A custom linear name colliding with an existing dimension may be refused; only returned values are checked then.', ref='DESIGN.md §5 C03'),
+    'C04': dict(
+        technique=RM + 'brute-force oracle monitor at the API boundary (GEOS intersects over the model polygon array) + reach monitor',
+        text='Tens of thousands of query points (interiors, exact shared vertices where up to 6 cells tie, shared edges, hole interiors, just outside, far outside) are looked up through get_index_for_point / select_point and compared with the minimum linear index among all model polygons intersecting the point.',
+        note=NOTE + 'For CF grids without stored bounds the brute force runs over the (1e-9-verified) emsarray polygon array, because boundary points are undecidable from a model that is only 1e-9-close.', ref='DESIGN.md §5 C04'),
+    'C05': dict(
+        technique=RM + 'reference-model monitor with self-identifying values over select_index(es) / select_point(s) / extract_points / extract_dataframe incl. expected-error events + reach monitor',
+        text='Index lists (repeats, shuffled, every grid kind, custom dimension names) and point lists (hits, boundary hits, misses) under policies error / drop / fill are selected through the real API and compared value-for-value, row-for-row with the model; absence of other-kind and geometry variables is asserted; NonIntersectingPoints must name exactly the misses.',
+        note=NOTE + 'Nothing asserted for variables without a grid dimension, for drop/fill with every point missing, or for caller-chosen dimension names that collide with dataset dimensions.', ref='DESIGN.md §5 C05'),
+    'C06': dict(
+        technique=RM + 'reference-model monitor on polygons / mask / bounds / geometry + warning capture + in-situ contract on make_polygons_with_holes + reach monitor (both bounds branches of each topology class must be entered)',
+        text='Bare geometry datasets in every coordinate layout the generators know (stored vs derived bounds, bounds/coordinates as variables or xarray coordinates, units/standard_name/axis identification, holes, bow-tie cells, masked node grids, all mesh encodings) are opened by the real code; every polygon, the validity mask, InvalidPolygonWarning, bounds and overall geometry are compared with the model.',
+        note=NOTE + 'Rings compared modulo start vertex and direction; stored 1-D bounds are contiguous; invalid cells are interior; meshes have no orphan nodes.', ref='DESIGN.md §5 C06'),
+    'C07': dict(
+        technique=RM + 'exhaustive enumeration as workload for the mask primitives under in-situ icontract post-conditions (loop references) + end-to-end reference-model monitor on make_clip_mask + monotonicity monitor on recorded outputs + reach monitor',
+        text='(i) every boolean array up to 4x4 (thorough; quick: up to 9 elements + random 4x4) through blur_mask (size 0..3), smear_mask, c_mask_from_centres, each call checked by a contract; (ii) make_clip_mask for buffers 0..3 over all conventions and ~14 geometry classes vs brute-force GEOS selection, own Chebyshev dilation / node-sharing rings / rank renumbering; (iii) enlarging geometry or buffer never unmarks.',
+        note=NOTE + 'Polygon fidelity is C06, mesh table normalisation C10. The evidence flag exhaustive refers to the primitive sweep of the thorough tier only.', ref='DESIGN.md §5 C07'),
+    'C08': dict(
+        technique=RM + 'history + reference-model monitor with self-identifying values (clip directly, or make mask -> save -> reload -> apply to a twin dataset) + in-situ mask contracts + reach monitor',
+        text='Clips of generated datasets of all conventions (float/int/int+_FillValue/int+missing_value variables on every kind, dims in any order, meshes with all 16 table subsets, in memory or via netCDF) are loaded and every output value is compared with the model: selected cells unchanged, unselected cells in the extent missing, unmaskable integers cropped but unaltered, non-grid variables, coordinates and attributes unchanged.',
+        note=NOTE + 'Values compared numerically after CF decoding; empty selections not asserted.', ref='DESIGN.md §5 C08'),
+    'C09': dict(
+        technique=RM + 'history + reference-model monitor on the clipped dataset (class, save/reopen, polygons, independently decoded connectivity, raw on-disk dtype via netCDF4, select_variables) + reach monitor',
+        text='After each clip of the C08 workload the result must be the same convention, save with ems.to_netcdf and reopen as such, keep exactly the original polygon of every selected cell (explicit geometry) and invent none, carry every input connectivity table restricted to survivors and renumbered by rank with index base / dimension order / integer type preserved; select_variables keeps class, polygons and geometry variables (also on the unclipped dataset).',
+        note=NOTE + 'CF grids without stored bounds: class, centres, reopening only. Datasets carry a time axis.', ref='DESIGN.md §5 C09'),
+    'C10': dict(
+        technique=RM + 'one abstract mesh / many encodings: reference-model monitor on Mesh2DTopology tables vs a pure-python mesh model + reach monitor on every make_*_array',
+        text='Each random mesh (3..8-sided convex/concave faces) is encoded in a covering sample (quick) or the full 1152-encoding product (thorough) of start_index x fill x orientation x supplied-table subsets x edge-dimension declaration x coordinate storage; normalised face-node, supplied tables (used as given, permuted edge order) and derived tables are compared with the model.',
+        note=NOTE + 'Transposed tables come with the *_dimension attribute UGRID requires; cross-numbering checks only between tables that share a numbering.', ref='DESIGN.md §5 C10'),
 }
 
 PENDING_REASON = 'monitor not built yet in this session (planned, see DESIGN.md §5); will be claimed once its check runs clean on the unchanged tree'
